@@ -722,6 +722,23 @@ zif_utc_time(zif_t z, time_t t)
 		 * before the gap (RFC 5545, 3.3.5), which is the smaller one,
 		 * clocks only skip forward */
 		xj = xj < xi ? xj : xi;
+	} else if (__offs(AS_MUT_ZIF(z), __t32(t - xj)) == xj) {
+		/* a fixed point, but is it the only one?  When clocks are
+		 * set back a wall-clock time occurs twice and we may have
+		 * found the second one (east of Greenwich we do), RFC 5545
+		 * wants the first.  The cache now holds the range T - XJ is in,
+		 * if that began less than the set-back ago, T also exists
+		 * under the previous, bigger offset */
+		const int32_t u = __t32(t - xj);
+		const int32_t since = AS_MUT_ZIF(z)->cache.prev;
+
+		if (since > INT_MIN && since <= u) {
+			const int32_t po = __offs(AS_MUT_ZIF(z), since - 1);
+
+			if (po > xj && (int64_t)u - since < (int64_t)po - xj) {
+				xj = po;
+			}
+		}
 	}
 	return t - xj;
 }
